@@ -719,11 +719,13 @@ class Interp:
         from .builtins_model import binop
         cur = self.eval(_as_load(st.target), env)
         val = self.eval(st.value, env)
-        if isinstance(cur, np.ndarray) and isinstance(st.target, ast.Name):
+        if isinstance(cur, np.ndarray) and isinstance(st.target, (ast.Name, ast.Attribute)):
             new = binop(self, st.op, cur, val)
-            # in-place semantic of numpy: the same array object is updated
+            # in-place semantic of numpy: the same array object is updated (every alias of it sees the new values)
             if isinstance(new, np.ndarray) and new.shape == cur.shape:
                 cur[...] = new
+                if isinstance(st.target, ast.Attribute):
+                    self.assign(st.target, cur, env)
                 return
         self.assign(st.target, binop(self, st.op, cur, val), env)
 
